@@ -609,7 +609,18 @@ impl<'a> LoweringContext<'a> {
             TypedStmtKind::Function(func) => {
                 self.lower_function(func);
             }
-            TypedStmtKind::Needs(_) | TypedStmtKind::StructDecl { .. } => {}
+            TypedStmtKind::StructDecl {
+                name,
+                type_params,
+                fields,
+            } => {
+                // a struct declared inside a function body (lower_program only sees the
+                // top-level ones); lower_struct_decl clears type_params_map when done
+                let saved_type_params = self.type_params_map.clone();
+                self.lower_struct_decl(name, type_params, fields, &stmt.span);
+                self.type_params_map = saved_type_params;
+            }
+            TypedStmtKind::Needs(_) => {}
         }
     }
 
